@@ -1,6 +1,8 @@
 package rules
 
 import (
+	"regexp"
+	"strconv"
 	"strings"
 
 	"gldapverif/an"
@@ -12,7 +14,7 @@ func init() {
 	Registry["C14"] = checkC14
 	Descriptions["C14"] = "C14-encode-ref (the BER tree every control's Encode builds, on every path, equals the published grammar: RFC 4511 4.1.11 Control, RFC 2696 paging value, draft-behera-10 password policy value, draft-vchu-00 warning; the type child is the constant GetControlType returns), " +
 		"C14-roundtrip (for every control type and every encode path the request decoder, interpreted symbolically on the tree that Encode built, returns a control of the same type whose every field comes back from the node that carried it through value-preserving conversions or recognised inverse pairs, and every error branch the decoder takes on the way is decided never to be taken for any value the field types (narrowed by the encode path and the Behera constructor) admit), " +
-		"C14-attach (responses put encodeControls(r.controls) at envelope child [2] in slice order; requests decode envelope child [2] element by element in order), " +
+		"C14-attach (responses put encodeControls(r.controls) at envelope child [2] in slice order; requests decode envelope child [2] element by element in order - on every successful path of a well-formed message that has the third envelope child), " +
 		"C14-behera (truth table of NewControlBeheraPasswordPolicy: success => at most one of grace/expire/error set and error <= 8; fields come from the three options). Run-time value equality is not decided beyond identity data flow."
 }
 
@@ -123,7 +125,13 @@ func checkC14(c *Ctx) {
 	enc := c.fn(G, "encodeControls")
 	if enc != nil {
 		vs, atoms := c.shapeVariants(enc)
-		ok := len(atoms) == 0 && len(vs) == 1 && vs[0].Shape == "CTX[0]c{*[$0]$0[*].Encode()}"
+		// (branches that do not change the tree - pre-sizing the child list - are fine: every variant has the shape)
+		ok := len(atoms) <= 3 && len(vs) >= 1
+		for _, v := range vs {
+			if v.Shape != "CTX[0]c{*[$0]$0[*].Encode()}" {
+				ok = false
+			}
+		}
 		got := ""
 		if len(vs) > 0 {
 			got = vs[0].Shape
@@ -165,6 +173,79 @@ func checkC14(c *Ctx) {
 		}
 		for _, typ := range []string{"SimpleBindMessage", "SearchMessage", "ModifyMessage", "AddMessage", "DeleteMessage"} {
 			R.Check(seen[typ], "C14-attach", "*"+typ+".Controls = decodeControl of every element of envelope child [2], in order", c.P.Pos(nm.Pos()), ctlList, "request controls of "+typ+" are not decoded element by element from the envelope's third child")
+		}
+		// ... on every path: for a well-formed message that carries controls (every test of len(envelope.Children) decided
+		// for three children, every test of the operation's own child count decided for the count RFC 4511 gives it) no
+		// successful decoding of these operations ends with anything else in Controls
+		envLen := regexp.MustCompile(`^(!?)(<|<=|>|>=|==)\(len\(\$0\.Packet\.Children(\[1\]\.Children)?\),(\d+)\)$`)
+		rfcCount := map[string]int{"SimpleBindMessage": 3, "SearchMessage": 8, "ModifyMessage": 2, "AddMessage": 2, "DeleteMessage": 0}
+		bad := map[string]string{}
+		n3 := map[string]int{}
+		complete := true
+		for _, want := range []string{"SimpleBindMessage", "SearchMessage", "ModifyMessage", "AddMessage", "DeleteMessage"} {
+			nOp := rfcCount[want]
+			oracle := func(f *frame, iff *ssa.If) int {
+				mm := envLen.FindStringSubmatch(f.condString(iff.Cond))
+				if mm == nil {
+					return -1
+				}
+				n := 3
+				if mm[3] != "" {
+					n = nOp
+				}
+				k, _ := strconv.Atoi(mm[4])
+				v := false
+				switch mm[2] {
+				case "<":
+					v = n < k
+				case "<=":
+					v = n <= k
+				case ">":
+					v = n > k
+				case ">=":
+					v = n >= k
+				case "==":
+					v = n == k
+				}
+				if v != (mm[1] == "!") {
+					return 0
+				}
+				return 1
+			}
+			paths3, cmpl := c.guidedPathsO(nm, &symEnv{}, map[string]bool{G + ".decodeControl": true}, 6000, oracle, nil)
+			complete = complete && cmpl
+			for _, p := range paths3 {
+				r := p.Res
+				if len(r.retExpr) < 1 || !strings.HasPrefix(r.retExpr[0], "&alloc:") || k(r) == nil {
+					continue
+				}
+				typ := ptrNamed(an.Strip(an.ReturnResults(k(r))[0]).Type())
+				if typ != want {
+					continue
+				}
+				n3[typ]++
+				if r.undec != "" {
+					bad[typ] = "undecided: " + r.undec
+					continue
+				}
+				fields := map[string]string{}
+				r.fr.fieldsOf(r.retExpr[0][1:], "", fields, 0)
+				if got := shortOrigin(fields["Controls"]); got != ctlList {
+					bad[typ] = "Controls = " + got + " at " + c.pos(k(r))
+				}
+			}
+		}
+		for _, typ := range []string{"SimpleBindMessage", "SearchMessage", "ModifyMessage", "AddMessage", "DeleteMessage"} {
+			key := "*" + typ + ".Controls: no successful decoding of a message that carries controls drops them"
+			switch {
+			case !seen[typ]:
+			case !complete || n3[typ] == 0:
+				R.Unknown("C14-attach", key, c.P.Pos(nm.Pos()), "the decoder's paths could not be enumerated with the envelope's third child present")
+			case bad[typ] != "":
+				R.Fail("C14-attach", key, c.P.Pos(nm.Pos()), "with controls present on the message a successful decoding leaves "+bad[typ]+": the controls the client sent never reach the handler")
+			default:
+				R.OK("C14-attach", key, c.P.Pos(nm.Pos()), sprintf("%d successful paths with the third envelope child present, all end with %s", n3[typ], ctlList))
+			}
 		}
 	}
 
